@@ -12,7 +12,7 @@ META = {
             "endpoint is the minting method).  The driver does the same on real workers for a service with six stream "
             "methods (two exchange methods sharing a state class, one with a different class, a union-state method, two "
             "producers sharing a class): every token of every stream (init cursor and the cursors of later turns) x "
-            "every endpoint x {warm, cold worker} x {continue, cancel} x identities; the state objects log which endpoint "
+            "every endpoint x {warm, cold worker} x {continue, cancel} x identities x {tokens expire, token_ttl = 0}; the state objects log which endpoint "
             "processed which method's state; TLC validates the recorded histories against HttpStreamTrace.tla.",
     "note": "Trusted: state objects identify their minting method by a tag field set at init; endpoint identity is read "
             "from the CallContext passed to process/on_cancel.",
